@@ -1,4 +1,4 @@
-\* the code (after the repairs of the creation time key and of Close) on histories without a write between handle and registration: the properties that hold for the code
+\* the code (after the repairs of the creation time key, of Close and of the writer registration 81b03b7; WriteRows in its two steps): the properties that hold for the code
 CONSTANTS
   Leader = {1}
   MaxRow = 2
@@ -10,7 +10,8 @@ CONSTANTS
   CloseLocksFirst = FALSE
   RetryFailed = FALSE
   ClosedRejects = FALSE
-  AtomicWrite = TRUE
+  AtomicWrite = FALSE
+  RegisterAtGet = TRUE
   AtomicEvict = FALSE
   UniqueStamp = TRUE
   EvictChecksRef = TRUE
@@ -19,5 +20,5 @@ CONSTANTS
   AckFrozen = TRUE
 SPECIFICATION MCSpec
 INVARIANTS TypeOK FlushShape FlushedOnce AckNotAhead AckedRowsDurable ClosedIsFlushed NoStuck
-PROPERTIES FrozenNeverGrows
+PROPERTIES FlushedNeverGrows NoWriteIntoClosed
 CHECK_DEADLOCK FALSE
